@@ -240,7 +240,9 @@ Inductive hid :=
 | HSpacing (u now : N)               (* only the spacing test-and-set *)
 | HUnseal                            (* unseal.go unsealCA: already-unsealed test, load the signers, publish the keys, all under the mutex *)
 | HUnsealSplit                       (* NOT the code: the key list is appended after the mutex was released *)
-| HReadKeys.                         (* a handler that serves the published keys: sealed test under the mutex, then reads the key list *)
+| HReadKeys                          (* a handler that serves the published keys: sealed test under the mutex, then reads the key list *)
+| HOauthBegin (k st : N)             (* auth_oauth2.go oauth2DoRedirectoToProviderHandler: park the pending login k with state parameter st *)
+| HOauthCallback (k st : N).         (* auth_oauth2.go oauth2RedirectPathHandler: look the pending login up, compare the state, (provider round trip), forget it *)
 
 Definition has_enabled_tok (o : option profile) : bool :=
   match o with Some p => existsb t_enabled (toks p) | None => false end.
@@ -290,7 +292,43 @@ Definition handler (h : hid) : list act :=
       (* 500: sealed; 299: answered as unsealed with an incomplete key set; 200: the keys *)
       [Lock L_state; MapGet M_signer 0; Unlock L_state; CheckMap is_some 500;
        MapGet M_pubkeys 0; CheckMap is_some 299; Respond 200]
+  | HOauthBegin k st =>
+      [Lock L_state; MapSet M_pendingOauth2 k st; Unlock L_state; Respond 200]
+  | HOauthCallback k st =>
+      [Lock L_state; MapGet M_pendingOauth2 k; Unlock L_state;
+       CheckMap is_some 400; CheckMap (fun m => oN_eq m (Some st)) 400;
+       Lock L_state; MapDel M_pendingOauth2 k; Unlock L_state; Respond 200]
   end.
+
+(* app.go performStateCleanup: one pass of the periodic sweep over the in-memory maps (not a request:
+   no answer), the expired keys `ks` of each map deleted inside ONE critical section *)
+Definition sweep (ks : list (N * N)) : list act :=
+  [Lock L_state] ++ map (fun mk => MapDel (fst mk) (snd mk)) ks ++ [Unlock L_state].
+
+(* NOT the code: the callback's lookup-compare-delete moved into a method with a VALUE receiver.  Every call
+   copies the state, its mutex included: Lock / Unlock act on the private copy `L_copy` while the map inside
+   the copy is still the shared one. *)
+Definition L_copy : N := 7.
+Definition oauth_callback_copied (k st : N) : list act :=
+  [Lock L_copy; MapGet M_pendingOauth2 k; CheckMap is_some 400; CheckMap (fun m => oN_eq m (Some st)) 400;
+   MapDel M_pendingOauth2 k; Unlock L_copy; Respond 200].
+
+(* ------------------------------------------------------------------ the answer ends the request *)
+(* A request has been answered when no Respond is left in its program (it was executed, or an early
+   return fixed the answer and cut the rest off). *)
+Fixpoint has_respond (p : list act) : bool :=
+  match p with [] => false | Respond _ :: _ => true | _ :: r => has_respond r end.
+Definition is_store_write (a : act) : bool := match a with Save _ _ | Del _ => true | _ => false end.
+(* every storage write of the program still has the Respond ahead of it *)
+Fixpoint wa_ok (p : list act) : bool :=
+  match p with [] => true | a :: r => (if is_store_write a then has_respond r else true) && wa_ok r end.
+Fixpoint ends_in_respond (p : list act) : bool :=
+  match p with [] => false | Respond _ :: [] => true | _ :: r => ends_in_respond r end.
+
+(* NOT the code: the profile write handed to a goroutine and the request answered with an error when a
+   time-out fires first — the abandoned write still happens *)
+Definition tok_handler_abandoned (u idx : N) (f : profile -> profile) : list act :=
+  [Load u; Check (has_tok idx) 400; Respond 500; Save u f].
 
 (* ------------------------------------------------------------------ storage-operation granularity *)
 (* the harness parks a request before every storage operation and before every Lock of an
